@@ -114,13 +114,39 @@ def unguarded_path(e, g, site, alternatives, start=None):
 
     nul = Nullness(g, e)
 
+    def assigns_mentioned(n):
+        if n.kind != 'stmt':
+            return False
+        import ast as _ast
+        from ..facts import path_of
+        a = n.ast
+        tg = a.targets if isinstance(a, _ast.Assign) else (
+            [a.target] if isinstance(a, (_ast.AugAssign, _ast.AnnAssign))
+            else [])
+        return any(path_of(el, n.frame) in paths for t in tg
+                   for el in _ast.walk(t))
+
     def step(n, label, st0):
-        st, ns = st0
+        st, ns, seen = st0
         ns2 = nul.step(n, label, ns)
         if ns2 == 'infeasible':
             return None
+        # what the path has already learnt about the guarded value: a later
+        # test of the same thing cannot come out the other way (the same
+        # condition tested twice, `ok = a or b; if ok or c: ...; if not ok`)
+        if assigns_mentioned(n) or n.kind == 'iter':
+            seen = frozenset()
+        elif n.kind == 'test' and label in ('T', 'F'):
+            new = set(seen)
+            for p0, k0 in atoms_of_test(n.ast, label == 'T', n.frame):
+                if not (set(key_paths(k0)) & paths):
+                    continue
+                if (not p0, k0) in seen:
+                    return None
+                new.add((p0, k0))
+            seen = frozenset(new)
         r = step1(n, label, st)
-        return (r, ns2)
+        return (r, ns2, seen)
 
     def step1(n, label, st):
         if st:
@@ -167,7 +193,7 @@ def unguarded_path(e, g, site, alternatives, start=None):
                     return True
         return False
     return dataflow.typestate_witness(
-        g, (False, frozenset()), step,
+        g, (False, frozenset(), frozenset()), step,
         lambda n, st: n is site and not st[0], start=start)
 
 
